@@ -209,6 +209,26 @@ def gen_cases(c):
     big = b"".join(bigs[0])
     for cut in (4096, 4097, 5000, len(bigs[0][0]) + 3, len(big) - 1, len(big) - 4):
         add(big[:cut], [], ("err", None), "broken/truncated-large")
+    # --- mutants of valid streams (1-3 byte edits with bytes that matter to the parser): no expectation
+    #     except the model's answer, no hang/crash, and C17_success_is_exact as a run-time oracle
+    interesting = [13, 10, 32, 9, 11, 12, 0, 43, 45, 48, 57, 58, 255, 67, 99]
+    seeds = [b"".join(x) for x in smalls[:5]] + [rec(b"0123456789", headers=(b"Content-Type: text/plain",)) + rec(b"")]
+    for _ in range(700 if c.tier == "quick" else 8000):
+        sdata = bytearray(rng.choice(seeds))
+        for _ in range(rng.randrange(1, 4)):
+            pos = rng.randrange(len(sdata) + 1)
+            op = rng.random()
+            b = rng.choice(interesting) if rng.random() < 0.8 else rng.randrange(256)
+            if op < 0.4 and pos < len(sdata):
+                sdata[pos] = b
+            elif op < 0.75:
+                sdata.insert(pos, b)
+            elif pos < len(sdata):
+                del sdata[pos]
+        sdata = bytes(sdata)
+        if sdata[:2] == b"\x1f\x8b" or sdata[:3] == b"BZh" or sdata[:6] == b"\xfd7zXZ\x00":
+            continue
+        add(sdata, rng.choice(([], rand_frags(rng, len(sdata), 6), [1] * len(sdata))), ("fuzz",), "fuzz/mutated-valid-stream")
     return cases
 
 
@@ -317,6 +337,13 @@ def main(argv):
             continue
         if res.startswith("HANG") or res.startswith("CRASH"):
             c.violation("warc-hang-or-crash: %s gave %s" % (x["bucket"], res), rep)
+            continue
+        if x["expect"][0] == "fuzz":
+            if res.startswith("OK"):
+                got = res.split(" ")[1]
+                recs_ = [] if got == "-" else [b"" if r == "e" else bytes.fromhex(r) for r in got.split(",")]
+                if b"".join(recs_) != x["stream"] or any(not r.endswith(CRLF2) for r in recs_):
+                    c.violation("success-is-not-exact: a stream read successfully is not the concatenation of the returned CRLFCRLF-terminated records: %r -> %s" % (x["stream"][:80], res[:80]), rep)
             continue
         kind, want = x["expect"]
         if kind == "ok":
